@@ -23,6 +23,8 @@ def emit(pairs, check_fn=None):
         dl = case.get("derived_leaf")
         src = H.with_leaf_resource(case["routine"], dl) if dl else case["routine"]
         lines.append(f"Definition r{k} : routine := {H.routine_to_coq(src)}.")
+        if dl:
+            lines.append(f"Definition o{k} : routine := {H.routine_to_coq(case['routine'])}.")
         lines.append(f"Definition i{k} : impl_result := {H.impl_to_coq(imp)}.")
         names = set(case.get("point_names", []))
         if imp.get("ok"):
@@ -33,7 +35,9 @@ def emit(pairs, check_fn=None):
         if dl:
             # a derived resource calculated on the leaves: compared with the routine whose leaves declare it, the resource
             # reaching a node through repetitions only
-            items.append(f"(check_derived_leaf r{k} {E.coq_string(dl['name'])} i{k} {inex} {pts})")
+            ty = {"additive": "RAdditive", "multiplicative": "RMultiplicative"}[dl["type"]]
+            items.append(f"(check_derived_leaf o{k} r{k} {E.coq_string(dl['name'])} {ty} {E.coq_string(dl['of'])} "
+                         f"{E.coq_q(dl['a'])} {E.coq_q(dl['b'])} i{k} {inex} {pts})")
         elif check_fn:
             items.append(f"({check_fn} r{k} i{k} {inex} {pts})")
         else:
